@@ -4,6 +4,21 @@ import json, os
 PROPS = [json.loads(l)['id'] for l in open('/verif/properties.jsonl')]
 
 CLAIMED = {
+ 'C08': dict(
+   category='proof',
+   text=('PARTIAL proof + trace correspondence + validated premises. Proved in Coq for every chain length and every sequence of gauge moves: the gauge state machine '
+         '(position of the central block pC, per-site canonical flags) never gets stuck in canonize_, holds at most one central block, refuses orthogonalize_site_ exactly '
+         'when a block is pending, and after canonize_(to=last) from any state flags every site left-canonical; the composition rule of truncate_ '
+         '(d2 + D2 - D2*d2 per cut) equals one minus the product of kept fractions for every number of cuts, stays in [0,1], and is zero iff nothing was discarded. '
+         'The machine is executed against real MPS/MPO for random move sequences (pC and refusals must agree; flagged sites must be isometries). NOT proved: that QR/SVD '
+         'per block meet their specification and that projections along the sweep are orthogonal -- the dense state before/after every move (normalize on/off, factor), '
+         'isometries, norm(), Schmidt values and entropies across every cut vs numpy SVD, single-cut truncation (largest values kept, weight, factor), and the reported '
+         'discarded weight of binding sweeps vs the true relative distance are compared numerically for every operator family x symmetry, N=1..6, generic and '
+         'rank-deficient/degenerate integer data.'),
+   design_ref='DESIGN.md section 6 C08',
+   note=('Trusted: Coq kernel, no axioms; hand-written gauge model tied by trace correspondence; dense references by NumPy; tolerance 1e-8 relative. Degenerate multiplets '
+         'exactly at the truncation rank are checked through the weight only.'),
+   technique='Coq proof (state-machine invariants, discarded-weight algebra over Q) + trace correspondence + dense NumPy oracles'),
  'C07': dict(
    category='proof',
    text=('PARTIAL proof + exact correspondence. Proved in Coq on the sign layer shared by generate_mpo, measure_2site and measure_nsite (all lengths, repetitions, orders, '
